@@ -110,6 +110,7 @@ type c10Case struct {
 	Cache  int
 	Warm   int // number of honest FIFO generations before the messages arrive
 	Msgs   []wireMsg
+	Latency bool `json:",omitempty"` // the server has a latency matrix (replicas were assigned locations)
 }
 
 // ---- building protobuf messages from the specification -----------------------------------------------------------------
@@ -405,7 +406,7 @@ func peerCtx(sender, n int) context.Context {
 }
 
 func c10Prop(c c10Case) common.Result {
-	cfg := Config{N: 4, Rules: c.Rules, Crypto: c.Crypto, Cache: c.Cache, Batch: 1}
+	cfg := Config{N: 4, Rules: c.Rules, Crypto: c.Crypto, Cache: c.Cache, Batch: 1, Latency: c.Latency}
 	cl, err := New(cfg)
 	if err != nil {
 		return common.Fail("harness", "cluster: %v", err)
@@ -553,6 +554,7 @@ func genC10(rt *rapid.T) c10Case {
 	for i := rapid.IntRange(1, 5).Draw(rt, "n"); i > 0; i-- {
 		c.Msgs = append(c.Msgs, genWire(rt))
 	}
+	c.Latency = rapid.IntRange(0, 3).Draw(rt, "latency") == 0
 	return c
 }
 
